@@ -1159,6 +1159,12 @@ func (c *codegen) Visit(node ast.Node) ast.Visitor {
 		c.setLabel(lElseEnd)
 		return nil
 
+	case *ast.TypeSwitchStmt:
+		// Stack items do not keep Go types (every integer type is an Integer,
+		// a conversion to an interface changes nothing).
+		c.prog.Err = errors.New("type switch is not supported")
+		return nil
+
 	case *ast.SwitchStmt:
 		c.scope.vars.newScope()
 		defer c.scope.vars.dropScope()
